@@ -22,6 +22,7 @@ use std::time::Duration;
 
 use serde_json::{Value, json};
 
+use crate::decode;
 use crate::drive::Runner;
 use crate::intercept::{Plan, Sched};
 use crate::tree::{self, Node};
@@ -250,6 +251,62 @@ pub fn do_conc_sweep(r: &mut Runner, st: &Value) {
         }
     }
     let total = scheds.len();
+    // Screening: run EVERY schedule with up to `screen` preemptions with the log muted, look at the
+    // final archive with the harness's own decoder, and keep the schedules after which a complete
+    // version looks broken (or an actor panicked, or the lock stayed). They are then executed again
+    // with full logging, ahead of the sample, and it is that execution TLC judges.
+    let screen = st.get("screen").and_then(|x| x.as_u64()).unwrap_or(0) as usize;
+    let mut hot: Vec<Vec<Value>> = Vec::new();
+    let mut screened = 0usize;
+    if screen > 0 {
+        let mut all: Vec<Vec<Value>> = Vec::new();
+        for (x, y) in [(&a, &b), (&b, &a)] {
+            let px = &key_positions[x];
+            let py = &key_positions[y];
+            for &p1 in px {
+                if p1 == 0 || p1 >= lens[x] {
+                    continue;
+                }
+                all.push(vec![json!({"a": x, "n": p1}), json!({"a": y, "n": 1_000_000})]);
+                if screen < 2 {
+                    continue;
+                }
+                for &q1 in py {
+                    if q1 == 0 || q1 >= lens[y] {
+                        continue;
+                    }
+                    all.push(vec![json!({"a": x, "n": p1}), json!({"a": y, "n": q1}), json!({"a": x, "n": 1_000_000})]);
+                    if screen < 3 {
+                        continue;
+                    }
+                    for &p2 in px {
+                        if p2 <= p1 || p2 >= lens[x] {
+                            continue;
+                        }
+                        all.push(vec![json!({"a": x, "n": p1}), json!({"a": y, "n": q1}), json!({"a": x, "n": p2 - p1}), json!({"a": y, "n": 1_000_000})]);
+                    }
+                }
+            }
+        }
+        let cap = st.get("screen_cap").and_then(|x| x.as_u64()).unwrap_or(20_000) as usize;
+        if all.len() > cap {
+            // an even spread over the enumeration order
+            let step = all.len() as f64 / cap as f64;
+            all = (0..cap).map(|i| all[(i as f64 * step) as usize].clone()).collect();
+        }
+        r.log.set_muted(true);
+        for sch in &all {
+            run_scheduled(r, &prep, sch, false);
+            let bad = decode::suspicious(&decode::fsck(&r.arch));
+            r.do_reset();
+            let panicked = r.log.set_muted(true);
+            if (bad || panicked) && hot.len() < 12 {
+                hot.push(sch.clone());
+            }
+            screened += 1;
+        }
+        r.log.set_muted(false);
+    }
     if sample > 0 && scheds.len() > sample {
         let mut x = seed.wrapping_mul(0x9E3779B97F4A7C15) | 1;
         let mut picked = Vec::new();
@@ -262,7 +319,11 @@ pub fn do_conc_sweep(r: &mut Runner, st: &Value) {
         }
         scheds = picked;
     }
-    r.log.emit(json!({"ev": "sweep", "mode": "schedules", "nops": lens[&a] + lens[&b], "ninj": scheds.len(), "total": total}));
+    let nhot = hot.len();
+    hot.extend(scheds);
+    let scheds = hot;
+    r.log.emit(json!({"ev": "sweep", "mode": "schedules", "nops": lens[&a] + lens[&b], "ninj": scheds.len(), "total": total,
+                      "screened": screened, "hot": nhot}));
     for sch in scheds {
         run_scheduled(r, &prep, &sch, false);
         r.run_steps(&then);
